@@ -37,20 +37,47 @@ inductive Parsed where
   | bad       -- undefined flag, bad syntax, missing or unparsable value: exit 2
   deriving Repr
 
+/-! String handling is done on character lists with plain structural recursion, so that the
+kernel can evaluate the parser (`decide`) and the driver runs the very same definitions. -/
+
 def parseBool (s : String) : Option Bool :=
   if s ∈ ["1", "t", "T", "TRUE", "true", "True"] then some true
   else if s ∈ ["0", "f", "F", "FALSE", "false", "False"] then some false
   else none
 
-/-- Decimal integers only (the harness generates nothing else): optional `-`, digits. -/
-def parseInt (s : String) : Option Int := s.toInt?
+def digitsVal : List Char → Nat → Option Nat
+  | [], acc => some acc
+  | c :: cs, acc => if '0' ≤ c ∧ c ≤ '9' then digitsVal cs (acc * 10 + (c.toNat - 48)) else none
+
+/-- Decimal integers only (the harness generates nothing else): optional `-`, at least one digit. -/
+def parseInt (s : String) : Option Int :=
+  match s.toList with
+  | [] => none
+  | '-' :: [] => none
+  | '-' :: cs => (digitsVal cs 0).map fun n => -(n : Int)
+  | cs => (digitsVal cs 0).map fun n => (n : Int)
+
+/-- Split at the first occurrence of `sep`: the part before, and (if `sep` occurs) the part after. -/
+def splitFirst (sep : Char) : List Char → List Char × Option (List Char)
+  | [] => ([], none)
+  | c :: cs =>
+    if c = sep then ([], some cs)
+    else
+      let (a, b) := splitFirst sep cs
+      (c :: a, b)
+
+/-- Split at every occurrence of `sep` (`strings.Split`). -/
+def splitAll (sep : Char) : List Char → List (List Char)
+  | [] => [[]]
+  | c :: cs =>
+    match splitAll sep cs with
+    | [] => [[c]]
+    | w :: ws => if c = sep then [] :: w :: ws else (c :: w) :: ws
 
 /-- Split `name[=value]` at the first `=`. -/
-def splitEq (s : String) : String × Option String :=
-  match s.splitOn "=" with
-  | [n] => (n, none)
-  | n :: rest => (n, some ("=".intercalate rest))
-  | [] => ("", none)
+def splitEq (s : List Char) : String × Option String :=
+  let (n, v) := splitFirst '=' s
+  (String.ofList n, v.map String.ofList)
 
 def setVal (vals : List (String × String)) (k v : String) : List (String × String) :=
   (k, v) :: vals.filter (·.1 != k)
@@ -61,34 +88,40 @@ def parseFlags (defs : List (String × FlagKind × String)) :
   | 0, _, vals => .ok vals
   | _, [], vals => .ok vals
   | fuel + 1, a :: rest, vals =>
-    if a.length < 2 || !(a.startsWith "-") then .ok vals
-    else if a == "--" then .ok vals
-    else
-      let body := if a.startsWith "--" then (a.drop 2).toString else (a.drop 1).toString
-      if body.isEmpty || body.startsWith "-" || body.startsWith "=" then .bad
+    match a.toList with
+    | '-' :: c :: cs =>
+      -- `--` alone terminates the flags; otherwise one or two dashes introduce a flag
+      let body : List Char := if c = '-' then cs else c :: cs
+      if c = '-' ∧ cs = [] then .ok vals
       else
-        let (name, value) := splitEq body
-        match defs.lookup name with
-        | none => if name == "help" || name == "h" then .help else .bad
-        | some (.bool, _) =>
-          match value with
-          | none => parseFlags defs fuel rest (setVal vals name "true")
-          | some v =>
-            match parseBool v with
-            | some b => parseFlags defs fuel rest (setVal vals name (if b then "true" else "false"))
-            | none => .bad
-        | some (kind, _) =>
-          let next : Option (String × List String) :=
+        match body with
+        | [] => .bad
+        | '-' :: _ => .bad
+        | '=' :: _ => .bad
+        | _ =>
+          let (name, value) := splitEq body
+          match defs.lookup name with
+          | none => if name == "help" || name == "h" then .help else .bad
+          | some (.bool, _) =>
             match value with
-            | some v => some (v, rest)
-            | none => match rest with
-              | v :: rest' => some (v, rest')
-              | [] => none
-          match next with
-          | none => .bad
-          | some (v, rest') =>
-            if kind == .int && (parseInt v).isNone then .bad
-            else parseFlags defs fuel rest' (setVal vals name v)
+            | none => parseFlags defs fuel rest (setVal vals name "true")
+            | some v =>
+              match parseBool v with
+              | some b => parseFlags defs fuel rest (setVal vals name (if b then "true" else "false"))
+              | none => .bad
+          | some (kind, _) =>
+            let next : Option (String × List String) :=
+              match value with
+              | some v => some (v, rest)
+              | none => match rest with
+                | v :: rest' => some (v, rest')
+                | [] => none
+            match next with
+            | none => .bad
+            | some (v, rest') =>
+              if kind == .int && (parseInt v).isNone then .bad
+              else parseFlags defs fuel rest' (setVal vals name v)
+    | _ => .ok vals        -- not a flag (shorter than two characters, or no leading dash)
 
 def getVal (defs : List (String × FlagKind × String)) (vals : List (String × String)) (k : String) : String :=
   match vals.lookup k with
@@ -99,7 +132,7 @@ def getVal (defs : List (String × FlagKind × String)) (vals : List (String × 
 
 /-- `parseCharacterClasses`: strip spaces, split at commas, OR the known words; empty ⇒ defaults. -/
 def parseClasses (t : Tables) (value : String) (defaults : List String) : Nat :=
-  let classes := if value != "" then (value.replace " " "").splitOn "," else defaults
+  let classes := if value != "" then (splitAll ',' (value.toList.filter (· != ' '))).map String.ofList else defaults
   classes.foldl (fun acc c => match t.ccMap.lookup c with | some f => acc ||| f | none => acc) 0
 
 /-- What a command line denotes. -/
